@@ -224,14 +224,16 @@ theorem world_refines_spec (db : Db F) (c : Ctx) (n : String) (sub : Bool) (h : 
       liveRows (modelWorld db) c n = liveRows (specWorld db) c n) :=
   world_name_eq db c n sub h
 
-/-- **`Store.QueryIds` returns exactly the satisfying ids**: for every database whose set buckets
-    are sorted string buckets, every store, every well-typed filter whose names resolve regularly and
-    whose sub-queries range over plain cursors (`namesOK`, see `subquery_tail_violates`): no matching
-    entity is omitted, no non-matching entity is returned. -/
+/-- **`Store.QueryIds` returns exactly the satisfying ids** — the full statement of the property
+    for the bolt-backed store: for every database whose set buckets are sorted string buckets, every
+    store and every well-typed filter (any depth, dotted names of any length, map elements,
+    sub-queries with skip / limit): no matching entity is omitted, no non-matching entity is
+    returned.  The specification reads dotted names as chains of links (`specPath`) and types
+    sub-queries against the entity type the path leads to (`dbSpecSigma`). -/
 theorem query_exact (db : Db F) (fo : FloatOps F) (st : Nat) (f : U F)
-    (hwf : WellFormedDb db) (hwt : wellTyped (dbSigma db.defs) fo st f = true)
-    (hp : namesOK db.defs st f = true) :
+    (hwf : WellFormedDb db) (hwt : wellTyped (dbSpecSigma db.defs) fo st f = true) :
     query db fo st f = .ok (specQuery db fo st f) := by
+  rw [← dbSigma_eq_spec] at hwt
   obtain ⟨p, hpp⟩ := transform_total (dbSigma db.defs) fo st f hwt
   unfold query specQuery
   rw [hpp]
@@ -240,23 +242,11 @@ theorem query_exact (db : Db F) (fo : FloatOps F) (st : Nat) (f : U F)
   apply List.filter_congr
   intro id _
   rw [eval_refines_sat (dbSigma db.defs) (modelWorld db) fo (modelWorld_seekOK db hwf) st f hwt p hpp (st, some id)]
-  exact (sat_world_eq db fo f st (st, some id) rfl hp (Or.inl hwt)).1
+  exact (sat_world_eq db fo f st (st, some id) rfl (namesOK_all db.defs f st) (Or.inl hwt)).1
 
-/-- Every filter whose names have at most three segments — at most two for the symbol a sub-query
-    ranges over — is answered exactly, on every well-formed database: comparisons, in / between,
-    connectives, anyOf / allOf / count / isEmpty over direct sets, dotted symbols, map elements,
-    sub-queries with skip / limit. -/
-theorem query_exact_short_names (db : Db F) (fo : FloatOps F) (st : Nat) (f : U F)
-    (hwf : WellFormedDb db) (hwt : wellTyped (dbSigma db.defs) fo st f = true)
-    (hs : shortNames f = true) :
-    query db fo st f = .ok (specQuery db fo st f) :=
-  query_exact db fo st f hwf hwt (namesOK_of_short db.defs f st hs)
-
-/-- The full statement for queries (no hypothesis on sub-queries).  FALSE for the code as it is:
-    `subquery_tail_violates`. -/
-def query_exact_fullStatement : Prop :=
-  ∀ (db : Db Float) (fo : FloatOps Float) (st : Nat) (f : U Float), WellFormedDb db →
-    wellTyped (dbSpecSigma db.defs) fo st f = true → query db fo st f = .ok (specQuery db fo st f)
+/-- the symbol tables `Store` answers `ast.Parse` with are those of the path semantics -/
+theorem symbol_tables_exact (defs : List StoreDef) : dbSigma defs = dbSpecSigma defs :=
+  dbSigma_eq_spec defs
 
 /-! ### a null link inside the dotted set symbol of a sub-query is no row (38978b1)
 
@@ -277,11 +267,13 @@ example : (modelWorld nilDb).subRows (1, some [98, 49]) "members.owner" = [(1, n
 example : specQuery nilDb witFo 1 nilFilter = [[98, 49]] := by decide
 example : query nilDb witFo 1 nilFilter = .ok [[98, 49]] := by decide
 
-/-! ### known deviation: composite set symbols with a non-iterable tail (a set followed by two or more links)
+/-! ### why 0441eb9 was needed: composite set symbols with a non-iterable tail
 
-  For `from groups.boss.boss where …` `createCompositeEntitySymbol` builds a compositeEntitySetSymbol
-  whose iterable chain is `groups` alone; `OpenSetCursorForQuery` scans the cursor's keys — the groups —
-  and `GetLinkedType` / `GetSetSymbolTypes` answer for `groups`, not for the entities the path leads to. -/
+  Before 0441eb9 `createCompositeEntitySymbol` (`composePre0441eb9`) kept a non-set chain behind a set as
+  a non-iterable tail: for `groups.boss.boss` the iterable chain was `groups` alone, so a sub-query over
+  it scanned the groups (and was typed against their entity type), and prefixing such a symbol with a
+  further link (`boss.groups.boss.label`) dropped the tail (`getChain()`).  The same queries on the
+  current model are answered as the specification says. -/
 
 def tailDb : Db Float where
   defs := [{ syms := [("id", .id), ("groups", .set .str (some 1))], maps := [] },
@@ -295,15 +287,17 @@ def tailDb : Db Float where
 def tailFilter : U Float :=
   .cmp .eq (.setFnSub .count "groups.boss.boss" (.cmp .eq (.sym "label") (.str [120])) none none) (.int 1)
 
-theorem subquery_tail_violates :
-    wellTyped (dbSpecSigma tailDb.defs) witFo 0 tailFilter = true ∧
-    specQuery tailDb witFo 0 tailFilter = [[97, 49]] ∧
-    query tailDb witFo 0 tailFilter = .ok [] := by
-  refine ⟨by decide, by decide, by decide⟩
+/-- old code: the cursor of `groups.boss.boss` ranged over the groups (b1), the path leads to b3 -/
+example : (resolvePre0441eb9 tailDb.defs 0 ["groups", "boss", "boss"]).map
+    (fun r => (r.hasTail, cursorKeys tailDb r (some [97, 49]))) = some (true, [.str [98, 49]]) := by decide
+example : (specPath tailDb.defs 0 ["groups", "boss", "boss"]).map (fun p => pathElems tailDb p (some [97, 49])) =
+    some [.str [98, 51]] := by decide
+/-- current code -/
+example : (resolve tailDb.defs 0 ["groups", "boss", "boss"]).map
+    (fun r => (r.hasTail, cursorKeys tailDb r (some [97, 49]))) = some (false, [.str [98, 51]]) := by decide
+example : query tailDb witFo 0 tailFilter = .ok [[97, 49]] := by decide
+example : specQuery tailDb witFo 0 tailFilter = [[97, 49]] := by decide
 
-/-- the same root cause, one level up: prefixing such a symbol with a further link drops the tail
-    (`getChain()` returns the iterable part only): the elements of `boss.groups.boss.label` are the
-    ids of the groups, not the labels of their bosses -/
 def dropDb : Db Float where
   defs := [{ syms := [("id", .id), ("boss", .field .str (some 0)), ("groups", .set .str (some 1))], maps := [] },
            { syms := [("id", .id), ("boss", .field .str (some 1)), ("label", .field .str none)], maps := [] }]
@@ -315,11 +309,12 @@ def dropDb : Db Float where
 /-- `anyOf(boss.groups.boss.label) = "x"` -/
 def dropFilter : U Float := .cmp .eq (.setFn .anyOf "boss.groups.boss.label") (.str [120])
 
-theorem tail_drop_violates :
-    wellTyped (dbSpecSigma dropDb.defs) witFo 0 dropFilter = true ∧
-    specQuery dropDb witFo 0 dropFilter = [[97, 49]] ∧
-    query dropDb witFo 0 dropFilter = .ok [] := by
-  refine ⟨by decide, by decide, by decide⟩
+/-- old code: the resolved symbol of `boss.groups.boss.label` had lost `boss.label` -/
+example : (resolvePre0441eb9 dropDb.defs 0 ["boss", "groups", "boss", "label"]).map (fun r => r.atoms.length) = some 2 := by decide
+example : (specPath dropDb.defs 0 ["boss", "groups", "boss", "label"]).map List.length = some 4 := by decide
+example : (resolve dropDb.defs 0 ["boss", "groups", "boss", "label"]).map (fun r => r.atoms.length) = some 4 := by decide
+example : query dropDb witFo 0 dropFilter = .ok [[97, 49]] := by decide
+example : specQuery dropDb witFo 0 dropFilter = [[97, 49]] := by decide
 
 theorem wellFormed_of_sets (db : Db Float)
     (h : ∀ rows ∈ db.rows, ∀ e ∈ rows, ∀ p ∈ e.sets, SortedStrs p.2) : WellFormedDb db := by
@@ -336,24 +331,6 @@ theorem wellFormed_of_sets (db : Db Float)
       obtain ⟨l1, l2, h1, _⟩ := this
       rw [h1]; simp
     exact h rows hrows e hmem (k, es) this
-
-theorem query_exact_full_fails : ¬ query_exact_fullStatement := by
-  intro h
-  have hwf : WellFormedDb tailDb := by
-    apply wellFormed_of_sets
-    intro rows hrows e he p hp
-    simp only [tailDb, List.mem_cons, List.mem_nil_iff, or_false] at hrows
-    rcases hrows with rfl | rfl
-    · simp only [List.mem_cons, List.mem_nil_iff, or_false] at he
-      subst he
-      simp only [List.mem_cons, List.mem_nil_iff, or_false] at hp
-      subst hp
-      exact ⟨[[98, 49]], rfl, by decide⟩
-    · simp only [List.mem_cons, List.mem_nil_iff, or_false] at he
-      rcases he with rfl | rfl | rfl <;> simp at hp
-  have := h tailDb witFo 0 tailFilter hwf subquery_tail_violates.1
-  rw [subquery_tail_violates.2.2, subquery_tail_violates.2.1] at this
-  exact absurd this (by decide)
 
 /-- non-vacuity of the hypotheses of `query_exact`: two linked stores, three rows, a filter that
     uses a dotted set symbol, a direct (seekable) set, a bool comparison on a null flag and a sub-query -/
@@ -376,8 +353,6 @@ def exDbFilter : U Float :=
         (.cmp .ge (.setFnSub .count "groups" (.cmp .ne (.sym "label") (.str [])) none (some 1)) (.int 1))))
 
 example : wellTyped (dbSigma exDb.defs) witFo 0 exDbFilter = true := by decide
-example : namesOK exDb.defs 0 exDbFilter = true := by decide
-example : shortNames exDbFilter = true := by decide
 theorem exDb_wellFormed : WellFormedDb exDb := by
   apply wellFormed_of_sets
   intro rows hrows e he p hp
@@ -409,8 +384,5 @@ end StorageModel.Properties.C01
 #print axioms StorageModel.Properties.C01.stacked_eq_flatMap
 #print axioms StorageModel.Properties.C01.world_refines_spec
 #print axioms StorageModel.Properties.C01.query_exact
-#print axioms StorageModel.Properties.C01.query_exact_short_names
 #print axioms StorageModel.Properties.C01.resolve_refines_path
-#print axioms StorageModel.Properties.C01.subquery_tail_violates
-#print axioms StorageModel.Properties.C01.tail_drop_violates
-#print axioms StorageModel.Properties.C01.query_exact_full_fails
+#print axioms StorageModel.Properties.C01.symbol_tables_exact
